@@ -277,6 +277,27 @@ Fixpoint late_all (q : quirks) (s : sig) (st : fstate) (ups : list (name * val))
   | (k, v) :: r => match late_one q s st k v with Ok st' => late_all q s st' r | Err e => Err e end
   end.
 
+(* A later binding with change notification switched off (rebind(..., skip_notification=True) or
+   pg.notify_on_change(False)): the value is stored and the name recorded as specified
+   (Functor._sym_rebind / _set_item_without_permission_check / __setattr__), _on_change does not run,
+   so the default / non-default classification is not refreshed. *)
+Definition late_one_silent (s : sig) (st : fstate) (k : name) (v : val) : result fstate :=
+  if is_va s k then
+    match vals_of_val v with
+    | None => Err ETypeError
+    | Some l => Ok (mark_specified (set_vattr st l) k)
+    end
+  else if accepts_key s k then Ok (mark_specified (set_attr st k v) k)
+  else Err EKeyError.
+Definition late_one_n (q : quirks) (s : sig) (st : fstate) (kvn : name * val * bool) : result fstate :=
+  let '(k, v, notify) := kvn in
+  if notify then late_one q s st k v else late_one_silent s st k v.
+Fixpoint late_all_n (q : quirks) (s : sig) (st : fstate) (ups : list (name * val * bool)) : result fstate :=
+  match ups with
+  | [] => Ok st
+  | u :: r => match late_one_n q s st u with Ok st' => late_all_n q s st' r | Err e => Err e end
+  end.
+
 (* _parse_call_time_overrides: positional arguments become keyword arguments *)
 Fixpoint call_positional (ps : list (name * option val)) (vs : list val) (sp : nset) (override : bool) (K : kmap val)
   : result (kmap val) :=
@@ -561,7 +582,7 @@ Definition functor_bind (q : quirks) (s : sig) (ctor : call) (ov ie : bool) (lat
    val    ::= z | (z ...)                         integer | list of integers
    sig    ::= (((name (dflt)?) ...) (va)? ((name (dflt)?) ...) (kw)? posonly)
    call   ::= ((val ...) ((name val) ...))
-   case   ::= (0 (q) sig ctor (ov ie) ((name val) ...) call ((ov)? (ie)?) post)   functor; post: 0 none 1 clone 2 json
+   case   ::= (0 (q) sig ctor (ov ie) ((name val notify) ...) call ((ov)? (ie)?) post)   functor; post: 0 none 1 clone 2 json
             | (1 sig ctor partial ((name val) ...))                               symbolized class
             | (2 sig call)                                                        py_bind
             | (3 sig)                                                             generated __init__ signature
@@ -608,12 +629,17 @@ Definition d_call (t : tr) : option call :=
   | _ => None
   end.
 
-Definition run_functor (q : quirks) (s : sig) (ctor : call) (ov ie : bool) (lates : list (name * val))
+Definition d_late (t : tr) : option (name * val * bool) :=
+  match t with
+  | L [k; v; b] => do k' <- dN k; do v' <- d_val v; do b' <- dbool b; Some (k', v', b')
+  | _ => None
+  end.
+Definition run_functor (q : quirks) (s : sig) (ctor : call) (ov ie : bool) (lates : list (name * val * bool))
     (c : call) (ovo ieo : option bool) (post : Z) : tr :=
   match functor_ctor s ctor ov ie with
   | Err e => L [L [I 1; I 0; e_kind e]; L []]
   | Ok st =>
-      match late_all q s st lates with
+      match late_all_n q s st lates with
       | Err e => L [L [I 1; I 1; e_kind e]; L []]
       | Ok st1 =>
           let st2 := if Z.eqb post 1 then clone_state st1 else if Z.eqb post 2 then json_state s st1 else st1 in
@@ -635,7 +661,7 @@ Definition run_class (s : sig) (ctor : call) (partial : bool) (lates : list (nam
 Definition run (c : tr) : tr :=
   match c with
   | L [I 0; L [qb]; s; ctor; L [ov; ie]; lates; cl; L [ovo; ieo]; I post] =>
-      match dbool qb, d_sig s, d_call ctor, dbool ov, dbool ie, dlist d_kv lates, d_call cl, dopt dbool ovo, dopt dbool ieo with
+      match dbool qb, d_sig s, d_call ctor, dbool ov, dbool ie, dlist d_late lates, d_call cl, dopt dbool ovo, dopt dbool ieo with
       | Some qb', Some s', Some ctor', Some ov', Some ie', Some lates', Some cl', Some ovo', Some ieo' =>
           run_functor {| q_noop_rebind := qb' |} s' ctor' ov' ie' lates' cl' ovo' ieo' post
       | _, _, _, _, _, _, _, _, _ => ebad
